@@ -268,8 +268,10 @@ class MolecularOrbitals:
     def occsa(self, occsa):
         if self.kind == "generalized":
             raise NotImplementedError
+        occsa = np.array(occsa)
+        if occsa.shape != (self.norba,):
+            raise TypeError(f"Expecting shape ({self.norba},) for occsa, got {occsa.shape}")
         if self.kind == "restricted":
-            occsa = np.array(occsa)
             if self.occs is None:
                 self.occs = occsa
                 self.occs_aminusb = occsa.copy()
@@ -317,8 +319,10 @@ class MolecularOrbitals:
     def occsb(self, occsb):
         if self.kind == "generalized":
             raise NotImplementedError
+        occsb = np.array(occsb)
+        if occsb.shape != (self.norbb,):
+            raise TypeError(f"Expecting shape ({self.norbb},) for occsb, got {occsb.shape}")
         if self.kind == "restricted":
-            occsb = np.array(occsb)
             if self.occs is None:
                 self.occs = occsb
                 self.occs_aminusb = -occsb
